@@ -87,6 +87,11 @@ def draw_config(rng, nb=None, multi_dir=False, uniform_alpha=None, att_zero=Fals
     else:
         alpha = np.full((6, nb), float(uniform_alpha))
     att = np.zeros(nb) if att_zero else np.round(rng.uniform(0.0, 0.08, nb), 4)
+    if not att_zero and nb > 1:
+        # lossless and lossy bands side by side (exact zeros next to positive values)
+        for k in range(nb):
+            if rng.random() < 0.3:
+                att[k] = 0.0
     if multi_dir:
         nt, nphi = int(rng.integers(1, 3)), int(rng.choice([2, 4]))
     else:
